@@ -609,6 +609,24 @@ Proof.
   - destruct (lag_cast_exact b o Hb Ho ltac:(lia)) as [-> H]. lia.
 Qed.
 
+(* what the expiry purge and DeleteGroup look at: a group's lastCommit and the keys of its topic map *)
+Definition ginfo_cl (cl : cluster) (g : Z) : option (Z * list Z) :=
+  option_map (fun grp => (g_last grp, keys (g_topics grp))) (get (cl_consumer cl) g).
+Definition glast0 (G : option (Z * list Z)) : Z := match G with Some (L, _) => L | None => 0 end.
+Definition gkeys0 (G : option (Z * list Z)) : list Z := match G with Some (_, ks) => ks | None => [] end.
+Definition drop_key (t : Z) (ks : list Z) : list Z := filter (fun x => negb (x =? t)) ks.
+
+Lemma keys_remove_eq {V} (m : amap V) k : keys (remove m k) = drop_key k (keys m).
+Proof.
+  unfold keys, remove, drop_key. induction m as [|[k' v] r IH]; cbn; [reflexivity|].
+  destruct (k' =? k); cbn; [exact IH|f_equal; exact IH].
+Qed.
+
+Lemma ginfo_grp0 cl g :
+  let grp0 := match get (cl_consumer cl) g with Some x => x | None => empty_group end in
+  glast0 (ginfo_cl cl g) = g_last grp0 /\ gkeys0 (ginfo_cl cl g) = keys (g_topics grp0).
+Proof. unfold ginfo_cl. destruct (get (cl_consumer cl) g); cbn; auto. Qed.
+
 (* the four reasons for which addConsumerOffset drops a commit before it reaches the ring (unknown cluster, too old,
    rejected group, no broker offset for the partition); otherwise the broker offset the lag is computed against *)
 Definition reaches_ring (cf : config) (now : Z) (st : state) (c g t p ts : Z) : option Z :=
@@ -635,7 +653,10 @@ Lemma aco_inv cf now st c cl g t p off order ts lb P :
     lb t p = Some boff /\ in_i64 boff /\ 0 <= p /\
     ring_step (cf_min_distance cf) (ring_at N (cons_topic cl g t) i) (mkCommit off order ts) (commit_lag boff off) = (w', app) /\
     ring_at N (cons_topic cl' g t) i = w' /\
-    (forall g' t' j, (g' <> g \/ t' <> t \/ j <> i) -> ring_at N (cons_topic cl' g' t') j = ring_at N (cons_topic cl g' t') j).
+    (forall g' t' j, (g' <> g \/ t' <> t \/ j <> i) -> ring_at N (cons_topic cl' g' t') j = ring_at N (cons_topic cl g' t') j) /\
+    (forall g', ginfo_cl cl' g' =
+                if g' =? g then Some ((if app then ts else glast0 (ginfo_cl cl g)), t :: drop_key t (gkeys0 (ginfo_cl cl g)))
+                else ginfo_cl cl g').
 Proof.
   intros N i Hc [Hb Hg] Hnew. unfold add_consumer_offset, reaches_ring. rewrite Hc.
   destruct (too_old cf now ts); [left; split; reflexivity|].
@@ -681,7 +702,11 @@ Proof.
     destruct Hgrp as [Hnd Hgt]. split; [apply NoDup_keys_set; exact Hnd|].
     cbn [g_topics]. intros t' ps Ht'. apply get_set_inv in Ht'. destruct Ht' as [[-> ->]|[Hne Ht']]; [|apply Hgt; exact Ht'].
     exists tl. split; [exact Htl|exact Hparts'].
-  - split; [exact Hlbp|]. split; [exact Hboff|]. split; [exact Hp0|]. split; [exact Ers|]. split.
+  - split; [exact Hlbp|]. split; [exact Hboff|]. split; [exact Hp0|]. split; [exact Ers|]. split; [|split].
+    3:{ intros g'. unfold ginfo_cl at 1. cbn [cl_consumer]. destruct (g' =? g) eqn:Eg'.
+        - apply Z.eqb_eq in Eg'. subst g'. rewrite get_set_eq. cbn [option_map]. unfold grp'. cbn [g_last g_topics].
+          destruct (ginfo_grp0 cl g) as [E1 E2]. fold grp in E1, E2. rewrite E1, E2, <- keys_remove_eq. reflexivity.
+        - apply Z.eqb_neq in Eg'. rewrite get_set_neq by congruence. reflexivity. }
     + unfold cons_topic. cbn [cl_consumer]. rewrite get_set_eq. unfold grp'. cbn [g_topics]. rewrite get_set_eq.
       unfold ring_at, parts'. rewrite nth_error_set_nth_eq by exact Hilen. reflexivity.
     + intros g' t' j Hd. unfold cons_topic at 1. cbn [cl_consumer].
@@ -698,13 +723,19 @@ Qed.
 Lemma aown_inv cf st c cl g t p owner client lb P :
   let N := cf_intervals cf in
   get st c = Some cl -> cinv N lb P cl ->
-  add_consumer_owner cf st c g t p owner client = Done st RNone \/
-  exists cl', add_consumer_owner cf st c g t p owner client = Done (set st c cl') RNone /\
+  (cf_accept cf g = false /\ add_consumer_owner cf st c g t p owner client = Done st RNone) \/
+  exists cl', cf_accept cf g = true /\ add_consumer_owner cf st c g t p owner client = Done (set st c cl') RNone /\
               cinv N lb P cl' /\ cl_broker cl' = cl_broker cl /\
-              forall g' t' j, ring_at N (cons_topic cl' g' t') j = ring_at N (cons_topic cl g' t') j.
+              (forall g' t' j, ring_at N (cons_topic cl' g' t') j = ring_at N (cons_topic cl g' t') j) /\
+              (forall g', ginfo_cl cl' g' =
+                 if g' =? g
+                 then Some (glast0 (ginfo_cl cl g),
+                            if snd (get_broker_offset cl t p) =? 0 then gkeys0 (ginfo_cl cl g)
+                            else t :: drop_key t (gkeys0 (ginfo_cl cl g)))
+                 else ginfo_cl cl g').
 Proof.
   intros N Hc [Hb Hg]. unfold add_consumer_owner. rewrite Hc.
-  destruct (negb (cf_accept cf g)); [left; reflexivity|]. right.
+  destruct (cf_accept cf g) eqn:Eacc; cbn [negb]; [|left; split; reflexivity]. right.
   set (grp := match get (cl_consumer cl) g with Some x => x | None => empty_group end).
   assert (Hgrp : group_ok (P g) (cl_broker cl) grp).
   { unfold grp. destruct (get (cl_consumer cl) g) eqn:E; [apply Hg; exact E|apply group_ok_empty]. }
@@ -712,12 +743,16 @@ Proof.
   { intros t'. unfold cons_topic, grp. destruct (get (cl_consumer cl) g); reflexivity. }
   destruct (get_broker_offset cl t p) as [boff cnt] eqn:Eg.
   destruct (cnt =? 0) eqn:Ecnt.
-  - exists (mkCluster (cl_broker cl) (set (cl_consumer cl) g grp)). split; [reflexivity|]. split; [|split; [reflexivity|]].
+  - exists (mkCluster (cl_broker cl) (set (cl_consumer cl) g grp)). split; [reflexivity|]. split; [reflexivity|]. split; [|split; [reflexivity|split]].
     + split; [exact Hb|]. cbn [cl_broker cl_consumer]. intros g' grp0 Hg'.
       apply get_set_inv in Hg'. destruct Hg' as [[-> ->]|[Hne Hg']]; [exact Hgrp|apply Hg; exact Hg'].
     + intros g' t' j. unfold cons_topic at 1. cbn [cl_consumer].
       destruct (Z.eq_dec g' g) as [->|Hgne]; [|rewrite get_set_neq by congruence; reflexivity].
       rewrite get_set_eq, Ect. reflexivity.
+    + intros g'. cbn [snd]. rewrite Ecnt. unfold ginfo_cl at 1. cbn [cl_consumer]. destruct (g' =? g) eqn:Eg'.
+      * apply Z.eqb_eq in Eg'. subst g'. rewrite get_set_eq. cbn [option_map].
+        destruct (ginfo_grp0 cl g) as [E1 E2]. fold grp in E1, E2. rewrite E1, E2. reflexivity.
+      * apply Z.eqb_neq in Eg'. rewrite get_set_neq by congruence. reflexivity.
   - apply gbo_spec in Eg; [|lia]. destruct Eg as (tl & r & Htl & Hp0 & Hr & Hlast & -> & Hlt).
     rewrite gcp_eq, Ect.
     assert (Hl0 : parts_ok (P g t) tl (cons_topic cl g t)).
@@ -736,7 +771,7 @@ Proof.
     { destruct Hparts as [Hpl Hpp]. split; [unfold parts'; rewrite length_set_nth; exact Hpl|].
       intros j pr' Hj. apply nth_error_set_nth_inv in Hj. destruct Hj as [[-> ->]|[Hne Hj]]; [|apply Hpp; exact Hj].
       intros w Hw. cbn in Hw. apply (Hpp i pr Hpr w Hw). }
-    split; [reflexivity|]. split; [|split; [reflexivity|]].
+    split; [reflexivity|]. split; [reflexivity|]. split; [|split; [reflexivity|split]].
     + split; [exact Hb|]. cbn [cl_broker cl_consumer]. intros g' grp0 Hg'.
       apply get_set_inv in Hg'. destruct Hg' as [[-> ->]|[Hne Hg']]; [|apply Hg; exact Hg'].
       destruct Hgrp as [Hnd Hgt]. split; [apply NoDup_keys_set; exact Hnd|].
@@ -750,6 +785,10 @@ Proof.
       destruct (Nat.eq_dec j i) as [->|Hjne].
       * rewrite nth_error_set_nth_eq by exact Hilen. rewrite Hpr. reflexivity.
       * rewrite nth_error_set_nth_neq by congruence. reflexivity.
+    + intros g'. cbn [snd]. rewrite Ecnt. unfold ginfo_cl at 1. cbn [cl_consumer]. destruct (g' =? g) eqn:Eg'.
+      * apply Z.eqb_eq in Eg'. subst g'. rewrite get_set_eq. cbn [option_map]. unfold grp'. cbn [g_last g_topics].
+        destruct (ginfo_grp0 cl g) as [E1 E2]. fold grp in E1, E2. rewrite E1, E2, <- keys_remove_eq. reflexivity.
+      * apply Z.eqb_neq in Eg'. rewrite get_set_neq by congruence. reflexivity.
 Qed.
 
 Lemma clear_inv cf st c cl g lb P :
@@ -758,13 +797,17 @@ Lemma clear_inv cf st c cl g lb P :
   clear_consumer_owners cf st c g = Done st RNone \/
   exists cl', clear_consumer_owners cf st c g = Done (set st c cl') RNone /\
               cinv N lb P cl' /\ cl_broker cl' = cl_broker cl /\
-              forall g' t' j, ring_at N (cons_topic cl' g' t') j = ring_at N (cons_topic cl g' t') j.
+              (forall g' t' j, ring_at N (cons_topic cl' g' t') j = ring_at N (cons_topic cl g' t') j) /\
+              (forall g', ginfo_cl cl' g' = ginfo_cl cl g').
 Proof.
   intros N Hc [Hb Hg]. unfold clear_consumer_owners. rewrite Hc.
   destruct (negb (cf_accept cf g)); [left; reflexivity|].
   destruct (get (cl_consumer cl) g) as [grp|] eqn:Egr; [|left; reflexivity]. right.
   exists (mkCluster (cl_broker cl) (set (cl_consumer cl) g (clear_owners_group grp))).
-  split; [reflexivity|]. split; [|split; [reflexivity|]].
+  split; [reflexivity|]. split; [|split; [reflexivity|split]].
+  3:{ intros g'. unfold ginfo_cl. cbn [cl_consumer]. destruct (Z.eq_dec g' g) as [->|Hne].
+      - rewrite get_set_eq, Egr. unfold clear_owners_group. cbn [option_map g_last g_topics]. rewrite keys_map_vals. reflexivity.
+      - rewrite get_set_neq by congruence. reflexivity. }
   - split; [exact Hb|]. cbn [cl_broker cl_consumer]. intros g' grp0 Hg'.
     apply get_set_inv in Hg'. destruct Hg' as [[-> ->]|[Hne Hg']]; [|apply Hg; exact Hg'].
     destruct (Hg g grp Egr) as [Hnd Hgt]. unfold clear_owners_group. split; cbn [g_topics].
@@ -1193,7 +1236,7 @@ Proof.
     assert (Hinv' : hinv cf h' st) by (apply hinv_extend; [exact I|exact Hinv]).
     destruct (get st c) as [cl|] eqn:Hc;
       [|exists st, RNone; split; [unfold add_consumer_owner; rewrite Hc; reflexivity|exact Hinv']].
-    destruct (aown_inv cf st c cl g t p owner client _ _ Hc (Hinv' c cl Hc)) as [Hstep|(cl' & Hstep & Hcl' & _)].
+    destruct (aown_inv cf st c cl g t p owner client _ _ Hc (Hinv' c cl Hc)) as [[_ Hstep]|(cl' & _ & Hstep & Hcl' & _)].
     + exists st, RNone. split; [exact Hstep|exact Hinv'].
     + exists (set st c cl'), RNone. split; [exact Hstep|]. apply hinv_set; [exact Hinv'|exact Hcl'].
   - (* ClearConsumerOwners *)
@@ -1486,7 +1529,7 @@ Proof.
   - destruct (get st c0) as [cl0|] eqn:Hc0;
       [|unfold add_consumer_offset in Hstep; rewrite Hc0 in Hstep; injection Hstep as <- _; left; reflexivity].
     destruct (aco_inv cf now st c0 cl0 g0 t0 p0 off order ts (last_broker h c0) (fun _ _ _ _ => True) Hc0) as
-      [[_ Hs]|(cl' & boff & w1 & app & _ & Hs & _ & _ & _ & _ & Hp00 & _ & _ & Hfr)].
+      [[_ Hs]|(cl' & boff & w1 & app & _ & Hs & _ & _ & _ & _ & Hp00 & _ & _ & Hfr & _)].
     + eapply cinv_impl; [reflexivity| |apply Hinv; exact Hc0]. intros; exact I.
     + intros; exact I.
     + rewrite Hs in Hstep. injection Hstep as <- _. left; reflexivity.
@@ -1496,12 +1539,12 @@ Proof.
       right. right. intros E. apply (Hnot off order ts). f_equal. lia.
   - destruct (get st c0) as [cl0|] eqn:Hc0;
       [|unfold add_consumer_owner in Hstep; rewrite Hc0 in Hstep; injection Hstep as <- _; left; reflexivity].
-    destruct (aown_inv cf st c0 cl0 g0 t0 p0 owner client _ _ Hc0 (Hinv c0 cl0 Hc0)) as [Hs|(cl' & Hs & _ & _ & Hfr)];
+    destruct (aown_inv cf st c0 cl0 g0 t0 p0 owner client _ _ Hc0 (Hinv c0 cl0 Hc0)) as [[_ Hs]|(cl' & _ & Hs & _ & _ & Hfr & _)];
       rewrite Hs in Hstep; injection Hstep as <- _; [left; reflexivity|].
     eapply Hset; [exact Hc0|reflexivity|]. intros _. left. apply Hfr.
   - destruct (get st c0) as [cl0|] eqn:Hc0;
       [|unfold clear_consumer_owners in Hstep; rewrite Hc0 in Hstep; injection Hstep as <- _; left; reflexivity].
-    destruct (clear_inv cf st c0 cl0 g0 _ _ Hc0 (Hinv c0 cl0 Hc0)) as [Hs|(cl' & Hs & _ & _ & Hfr)];
+    destruct (clear_inv cf st c0 cl0 g0 _ _ Hc0 (Hinv c0 cl0 Hc0)) as [Hs|(cl' & Hs & _ & _ & Hfr & _)];
       rewrite Hs in Hstep; injection Hstep as <- _; [left; reflexivity|].
     eapply Hset; [exact Hc0|reflexivity|]. intros _. left. apply Hfr.
   - destruct (get st c0) as [cl0|] eqn:Hc0;
@@ -1712,7 +1755,7 @@ Proof.
   - destruct (get st c0) as [cl0|] eqn:Hc0;
       [|unfold add_consumer_offset in Hstep; rewrite Hc0 in Hstep; injection Hstep as <- _; reflexivity].
     destruct (aco_inv cf now st c0 cl0 g0 t0 p0 off order ts (last_broker h c0) (fun _ _ _ _ => True) Hc0) as
-      [[_ Hs]|(cl' & boff & w1 & app & _ & Hs & _ & _ & _ & _ & Hp00 & _ & _ & Hfr)].
+      [[_ Hs]|(cl' & boff & w1 & app & _ & Hs & _ & _ & _ & _ & Hp00 & _ & _ & Hfr & _)].
     + eapply cinv_impl; [reflexivity| |apply Hinv; exact Hc0]. intros; exact I.
     + intros; exact I.
     + rewrite Hs in Hstep. injection Hstep as <- _. reflexivity.
@@ -1722,12 +1765,12 @@ Proof.
       right. right. intros E. apply (Hnot off order ts). f_equal. lia.
   - destruct (get st c0) as [cl0|] eqn:Hc0;
       [|unfold add_consumer_owner in Hstep; rewrite Hc0 in Hstep; injection Hstep as <- _; reflexivity].
-    destruct (aown_inv cf st c0 cl0 g0 t0 p0 owner client _ _ Hc0 (Hinv c0 cl0 Hc0)) as [Hs|(cl' & Hs & _ & _ & Hfr)];
+    destruct (aown_inv cf st c0 cl0 g0 t0 p0 owner client _ _ Hc0 (Hinv c0 cl0 Hc0)) as [[_ Hs]|(cl' & _ & Hs & _ & _ & Hfr & _)];
       rewrite Hs in Hstep; injection Hstep as <- _; [reflexivity|].
     eapply Hsame; [exact Hc0|reflexivity|]. intros _. apply Hfr.
   - destruct (get st c0) as [cl0|] eqn:Hc0;
       [|unfold clear_consumer_owners in Hstep; rewrite Hc0 in Hstep; injection Hstep as <- _; reflexivity].
-    destruct (clear_inv cf st c0 cl0 g0 _ _ Hc0 (Hinv c0 cl0 Hc0)) as [Hs|(cl' & Hs & _ & _ & Hfr)];
+    destruct (clear_inv cf st c0 cl0 g0 _ _ Hc0 (Hinv c0 cl0 Hc0)) as [Hs|(cl' & Hs & _ & _ & Hfr & _)];
       rewrite Hs in Hstep; injection Hstep as <- _; [reflexivity|].
     eapply Hsame; [exact Hc0|reflexivity|]. intros _. apply Hfr.
   - (* DeleteTopic *)
@@ -1800,4 +1843,583 @@ Proof.
     + rewrite Hr. rewrite Hs in Hstep. injection Hstep as <- _. split; [exact Hp0|]. split; [exact Hlb|].
       rewrite ring_of_set_same, Hw1. unfold ring_of. rewrite Hc, Hrs. reflexivity.
   - unfold reaches_ring. rewrite Hc. unfold add_consumer_offset in Hstep. rewrite Hc in Hstep. injection Hstep as <- _. reflexivity.
+Qed.
+
+(* ================================================================================================ *)
+(* 6. state-free reading of the drop rules                                                          *)
+(* ================================================================================================ *)
+
+(* the newest recorded offset of broker partition (t, i) of a cluster; None when the topic, the partition or the
+   value is missing (the three "drop" answers of getBrokerOffset besides a negative partition) *)
+Definition newest_of (cl : cluster) (t : Z) (i : nat) : option Z :=
+  match get (cl_broker cl) t with
+  | Some tl => match nth_error tl i with Some r => last r None | None => None end
+  | None => None
+  end.
+
+Lemma gbo_newest cl t p :
+  get_broker_offset cl t p =
+  match (if p <? 0 then None else newest_of cl t (Z.to_nat p)) with
+  | Some b => (b, match get (cl_broker cl) t with Some tl => Z.of_nat (length tl) | None => 0 end)
+  | None => (0, 0)
+  end.
+Proof.
+  unfold get_broker_offset, newest_of. destruct (get (cl_broker cl) t) as [tl|]; [|destruct (p <? 0); reflexivity].
+  destruct (p <? 0) eqn:E1; [reflexivity|].
+  destruct (Z.of_nat (length tl) <=? p) eqn:E2.
+  - assert (H : nth_error tl (Z.to_nat p) = None) by (apply nth_error_None; lia). rewrite H. reflexivity.
+  - assert (Hl : (Z.to_nat p < length tl)%nat) by lia.
+    rewrite (nth_nth_error tl (Z.to_nat p) [] Hl). destruct (last (nth (Z.to_nat p) tl []) None); reflexivity.
+Qed.
+
+Lemma gbo_known cl t p :
+  snd (get_broker_offset cl t p) <> 0 <-> 0 <= p /\ newest_of cl t (Z.to_nat p) <> None.
+Proof.
+  rewrite gbo_newest. destruct (p <? 0) eqn:E1; [cbn; split; [congruence|lia]|].
+  unfold newest_of. destruct (get (cl_broker cl) t) as [tl|]; [|cbn; split; [congruence|intros [_ H]; congruence]].
+  destruct (nth_error tl (Z.to_nat p)) as [r|] eqn:Er; [|cbn; split; [congruence|intros [_ H]; congruence]].
+  destruct (last r None) as [b|]; cbn; [|split; [congruence|intros [_ H]; congruence]].
+  assert (Z.to_nat p < length tl)%nat by (apply nth_error_Some; congruence).
+  split; [intros _; split; [lia|discriminate]|intros _; lia].
+Qed.
+
+(* -- what each request does to the broker side and to the set of clusters -- *)
+Definition same_broker (st st' : state) : Prop :=
+  st' = st \/ exists c0 cl0 cl', get st c0 = Some cl0 /\ st' = set st c0 cl' /\ cl_broker cl' = cl_broker cl0.
+
+Lemma newest_of_abo cf st c0 cl0 t0 p0 cnt off st' rep :
+  get st c0 = Some cl0 -> add_broker_offset cf st c0 t0 p0 cnt off = Done st' rep ->
+  exists cl', st' = set st c0 cl' /\
+    forall t i, newest_of cl' t i = if (t =? t0) && (Z.of_nat i =? p0) then Some off else newest_of cl0 t i.
+Proof.
+  intros Hc. unfold add_broker_offset. rewrite Hc.
+  set (tl0 := match get (cl_broker cl0) t0 with Some l => l | None => [] end).
+  set (tl1 := if Z.of_nat (length tl0) <=? cnt
+              then tl0 ++ repeat (repeat None (cf_intervals cf)) (Z.to_nat cnt - length tl0) else tl0).
+  destruct ((p0 <? 0) || (Z.of_nat (length tl1) <=? p0)) eqn:Ecr; [discriminate|].
+  intros H. injection H as <- _. eexists. split; [reflexivity|].
+  assert (Hext : exists n, tl1 = tl0 ++ repeat (repeat None (cf_intervals cf)) n).
+  { unfold tl1. destruct (Z.of_nat (length tl0) <=? cnt); [eexists; reflexivity|]. exists 0%nat. cbn. rewrite app_nil_r. reflexivity. }
+  assert (Hlen1 : (Z.to_nat p0 < length tl1)%nat) by lia.
+  assert (Hold : forall i, match nth_error tl1 i with Some r => last r None | None => None end = newest_of cl0 t0 i).
+  { intros i. unfold newest_of. fold tl0.
+    assert (E0 : match get (cl_broker cl0) t0 with
+                 | Some tl => match nth_error tl i with Some r => last r None | None => None end
+                 | None => None end = match nth_error tl0 i with Some r => last r None | None => None end).
+    { unfold tl0. destruct (get (cl_broker cl0) t0); [reflexivity|]. destruct i; reflexivity. }
+    rewrite E0. destruct Hext as [n ->]. destruct (lt_dec i (length tl0)) as [Hl|Hl].
+    - rewrite nth_error_app1 by exact Hl. reflexivity.
+    - assert (Hn : nth_error tl0 i = None) by (apply nth_error_None; lia). rewrite Hn.
+      destruct (nth_error (tl0 ++ repeat (repeat None (cf_intervals cf)) n) i) as [r|] eqn:Er; [|reflexivity].
+      apply nth_error_app_repeat in Er. destruct Er as [Er| ->]; [congruence|apply last_repeat_none]. }
+  intros t i. unfold newest_of at 1. cbn [cl_broker]. destruct (t =? t0) eqn:Et; cbn [andb].
+  - apply Z.eqb_eq in Et. subst t. rewrite get_set_eq. destruct (Z.of_nat i =? p0) eqn:Ei.
+    + assert (i = Z.to_nat p0) by lia. subst i. rewrite nth_error_set_nth_eq by exact Hlen1. apply last_last.
+    + rewrite nth_error_set_nth_neq by lia. apply Hold.
+  - apply Z.eqb_neq in Et. rewrite get_set_neq by congruence. reflexivity.
+Qed.
+
+Lemma newest_of_dtopic st c0 cl0 t0 st' rep :
+  get st c0 = Some cl0 -> delete_topic st c0 t0 = Done st' rep ->
+  exists cl', st' = set st c0 cl' /\ forall t i, newest_of cl' t i = if t =? t0 then None else newest_of cl0 t i.
+Proof.
+  intros Hc. unfold delete_topic. rewrite Hc. intros H. injection H as <- _. eexists. split; [reflexivity|].
+  intros t i. unfold newest_of. cbn [cl_broker]. destruct (t =? t0) eqn:Et.
+  - apply Z.eqb_eq in Et. subst t. rewrite get_remove_eq. reflexivity.
+  - apply Z.eqb_neq in Et. rewrite get_remove_neq by congruence. reflexivity.
+Qed.
+
+Definition touches_broker (r : req) : bool :=
+  match r with SetBrokerOffset _ _ _ _ _ | DeleteTopic _ _ => true | _ => false end.
+
+Lemma step_same_broker cf now st r st' rep :
+  touches_broker r = false -> step cf now st r = Done st' rep -> same_broker st st'.
+Proof.
+  intros Ht. destruct r as [c0 t0 p0 cnt off|c0 g0 t0 p0 off order ts|c0 g0 t0 p0 owner client|c0 g0|c0 t0|c0 g0 t0| |c0|c0|c0 g0|c0 t0|c0 t0];
+    try discriminate; cbn [step].
+  - unfold add_consumer_offset. destruct (get st c0) as [cl0|] eqn:Hc; [|intros H; injection H as <- _; left; reflexivity].
+    destruct (too_old cf now ts); [intros H; injection H as <- _; left; reflexivity|].
+    destruct (negb (cf_accept cf g0)); [intros H; injection H as <- _; left; reflexivity|].
+    destruct (get_broker_offset cl0 t0 p0) as [boff cnt].
+    destruct (cnt =? 0); [intros H; injection H as <- _; left; reflexivity|].
+    destruct (ring_step _ _ _ _) as [w' app]. intros H. injection H as <- _. right. eexists _, _, _. split; [exact Hc|]. split; reflexivity.
+  - unfold add_consumer_owner. destruct (get st c0) as [cl0|] eqn:Hc; [|intros H; injection H as <- _; left; reflexivity].
+    destruct (negb (cf_accept cf g0)); [intros H; injection H as <- _; left; reflexivity|].
+    destruct (get_broker_offset cl0 t0 p0) as [boff cnt].
+    destruct (cnt =? 0); intros H; injection H as <- _; right; eexists _, _, _; (split; [exact Hc|]); split; reflexivity.
+  - unfold clear_consumer_owners. destruct (get st c0) as [cl0|] eqn:Hc; [|intros H; injection H as <- _; left; reflexivity].
+    destruct (negb (cf_accept cf g0)); [intros H; injection H as <- _; left; reflexivity|].
+    destruct (get (cl_consumer cl0) g0); intros H; injection H as <- _; [|left; reflexivity].
+    right; eexists _, _, _; (split; [exact Hc|]); split; reflexivity.
+  - unfold delete_group. destruct (get st c0) as [cl0|] eqn:Hc; [|intros H; injection H as <- _; left; reflexivity].
+    destruct (get (cl_consumer cl0) g0) as [grp|]; [|intros H; injection H as <- _; left; reflexivity].
+    destruct (t0 =? 0); [intros H; injection H as <- _; right; eexists _, _, _; (split; [exact Hc|]); split; reflexivity|].
+    destruct (remove (g_topics grp) t0); intros H; injection H as <- _; right; eexists _, _, _; (split; [exact Hc|]); split; reflexivity.
+  - intros H. injection H as <- _. left; reflexivity.
+  - destruct (get st c0); intros H; injection H as <- _; left; reflexivity.
+  - destruct (get st c0); intros H; injection H as <- _; left; reflexivity.
+  - unfold fetch_consumer. destruct (get st c0) as [cl0|] eqn:Hc; [|intros H; injection H as <- _; left; reflexivity].
+    destruct (get (cl_consumer cl0) g0) as [grp|]; [|intros H; injection H as <- _; left; reflexivity].
+    destruct (expired cf now (g_last grp)).
+    + intros H; injection H as <- _; right; eexists _, _, _; (split; [exact Hc|]); split; reflexivity.
+    + destruct (fetch_topics_lags _ _); [|discriminate]. intros H; injection H as <- _. left; reflexivity.
+  - unfold fetch_topic. destruct (get st c0) as [cl0|]; [destruct (get (cl_broker cl0) t0)|]; intros H; injection H as <- _; left; reflexivity.
+  - unfold fetch_consumers_for_topic. destruct (get st c0); intros H; injection H as <- _; left; reflexivity.
+Qed.
+
+(* -- the spec side: is a broker offset known for (c,t,p) according to the history alone? -- *)
+(* the verdict of the last request that matters: a SetBrokerOffset for exactly (c,t,p) says yes, a DeleteTopic c t says no *)
+Definition bk_event (c t p : Z) (r : req) : option bool :=
+  match r with
+  | SetBrokerOffset c' t' p' _ _ => if (c' =? c) && (t' =? t) && (p' =? p) then Some true else None
+  | DeleteTopic c' t' => if (c' =? c) && (t' =? t) then Some false else None
+  | _ => None
+  end.
+
+Fixpoint bk_last (h : hist) (c t p : Z) : option bool :=
+  match h with
+  | [] => None
+  | (_, r) :: rest => match bk_last rest c t p with Some b => Some b | None => bk_event c t p r end
+  end.
+
+(* true iff h contains a SetBrokerOffset for (c,t,p) that no DeleteTopic c t follows *)
+Definition broker_known (h : hist) (c t p : Z) : bool := match bk_last h c t p with Some b => b | None => false end.
+
+Lemma bk_last_app h1 h2 c t p :
+  bk_last (h1 ++ h2) c t p = match bk_last h2 c t p with Some b => Some b | None => bk_last h1 c t p end.
+Proof.
+  induction h1 as [|[now r] h1 IH]; cbn [app bk_last]; [destruct (bk_last h2 c t p); reflexivity|].
+  rewrite IH. destruct (bk_last h2 c t p); reflexivity.
+Qed.
+
+Lemma bk_last_snoc h now r c t p :
+  bk_last (h ++ [(now, r)]) c t p = match bk_event c t p r with Some b => Some b | None => bk_last h c t p end.
+Proof. rewrite bk_last_app. cbn [bk_last]. destruct (bk_event c t p r); reflexivity. Qed.
+
+Lemma broker_known_spec h c t p :
+  broker_known h c t p = true <->
+  exists h1 now cnt off h2, h = h1 ++ (now, SetBrokerOffset c t p cnt off) :: h2 /\
+                            forall now' , ~ In (now', DeleteTopic c t) h2.
+Proof.
+  unfold broker_known. induction h as [|[now r] h IH] using rev_ind.
+  - cbn. split; [discriminate|]. intros (h1 & now & cnt & off & h2 & E & _). destruct h1; discriminate.
+  - rewrite bk_last_snoc. destruct (bk_event c t p r) as [b|] eqn:Eev.
+    + destruct r; cbn in Eev; try discriminate.
+      * destruct ((c0 =? c) && (t0 =? t) && (p0 =? p)) eqn:E; [|discriminate]. injection Eev as <-.
+        apply andb_true_iff in E. destruct E as [E E3]. apply andb_true_iff in E. destruct E as [E1 E2].
+        apply Z.eqb_eq in E1, E2, E3. subst. split; [intros _|reflexivity].
+        exists h, now, cnt, off, []. split; [reflexivity|]. intros now' [].
+      * destruct ((c0 =? c) && (t0 =? t)) eqn:E; [|discriminate]. injection Eev as <-.
+        apply andb_true_iff in E. destruct E as [E1 E2]. apply Z.eqb_eq in E1, E2. subst.
+        split; [discriminate|]. intros (h1 & now1 & cnt & off & h2 & E & Hno). exfalso.
+        destruct h2 as [|x h2] using rev_ind.
+        -- apply app_inj_tail in E. destruct E as [_ E]. discriminate.
+        -- rewrite app_comm_cons, app_assoc in E. apply app_inj_tail in E. destruct E as [_ <-].
+           apply (Hno now). apply in_or_app. right. left. reflexivity.
+    + rewrite IH. split.
+      * intros (h1 & now1 & cnt & off & h2 & -> & Hno). exists h1, now1, cnt, off, (h2 ++ [(now, r)]).
+        split; [rewrite <- app_assoc; reflexivity|]. intros now' Hin. apply in_app_or in Hin. destruct Hin as [Hin|[E|[]]].
+        -- apply (Hno now' Hin).
+        -- injection E as -> ->. cbn in Eev. rewrite !Z.eqb_refl in Eev. discriminate.
+      * intros (h1 & now1 & cnt & off & h2 & E & Hno). destruct h2 as [|x h2] using rev_ind.
+        -- apply app_inj_tail in E. destruct E as [_ E]. injection E as -> ->. cbn in Eev. rewrite !Z.eqb_refl in Eev. discriminate.
+        -- rewrite app_comm_cons, app_assoc in E. apply app_inj_tail in E. destruct E as [-> <-].
+           exists h1, now1, cnt, off, h2. split; [reflexivity|]. intros now' Hin. apply (Hno now'). apply in_or_app. left; exact Hin.
+Qed.
+
+(* -- clusters: exactly the configured ones, for ever -- *)
+Lemma get_init_state cls c : get (init_state cls) c <> None <-> In c cls.
+Proof.
+  unfold init_state. induction cls as [|c0 cls IH]; cbn; [tauto|]. destruct (c0 =? c) eqn:E.
+  - apply Z.eqb_eq in E. split; [auto|discriminate].
+  - apply Z.eqb_neq in E. rewrite IH. split; [auto|intros [H|H]; [congruence|exact H]].
+Qed.
+
+Lemma get_set_none_iff {V} (m : amap V) k v k' : get m k <> None -> (get (set m k v) k' <> None <-> get m k' <> None).
+Proof.
+  intros Hk. destruct (Z.eq_dec k k') as [->|Hne]; [rewrite get_set_eq; split; [auto|discriminate]|].
+  rewrite get_set_neq by exact Hne. tauto.
+Qed.
+
+(* the invariant: known clusters, and for each the broker side read off the history *)
+Definition bk_inv (cls : list Z) (h : hist) (st : state) : Prop :=
+  (forall c, get st c <> None <-> In c cls) /\
+  forall c cl t i, get st c = Some cl ->
+    newest_of cl t i = if broker_known h c t (Z.of_nat i) then last_broker h c t (Z.of_nat i) else None.
+
+Lemma bk_inv_step cf cls h st now r st' rep :
+  bk_inv cls h st -> step cf now st r = Done st' rep -> bk_inv cls (h ++ [(now, r)]) st'.
+Proof.
+  intros [Hcl Hbk] Hstep.
+  assert (Hkeep : forall c t p, bk_event c t p r = None -> is_broker c t p r = None ->
+            broker_known (h ++ [(now, r)]) c t p = broker_known h c t p /\
+            last_broker (h ++ [(now, r)]) c t p = last_broker h c t p).
+  { intros c t p E1 E2. unfold broker_known. rewrite bk_last_snoc, last_broker_snoc, E1, E2. auto. }
+  destruct (touches_broker r) eqn:Etb.
+  - destruct r as [c0 t0 p0 cnt off| | | |c0 t0| | | | | | |]; try discriminate; cbn [step] in Hstep.
+    + (* SetBrokerOffset *)
+      destruct (get st c0) as [cl0|] eqn:Hc0.
+      * destruct (newest_of_abo cf st c0 cl0 t0 p0 cnt off st' rep Hc0 Hstep) as (cl' & -> & Hn). split.
+        -- intros c. rewrite get_set_none_iff by congruence. apply Hcl.
+        -- intros c cl t i Hg. unfold broker_known. rewrite bk_last_snoc, last_broker_snoc. cbn [bk_event is_broker].
+           apply get_set_inv in Hg. destruct Hg as [[-> ->]|[Hne Hg]].
+           ++ rewrite Hn, Z.eqb_refl. cbn [andb]. destruct ((t0 =? t) && (p0 =? Z.of_nat i)) eqn:E.
+              ** apply andb_true_iff in E. destruct E as [E1 E2]. rewrite (Z.eqb_sym t t0), E1, (Z.eqb_sym _ p0), E2. reflexivity.
+              ** assert (E' : (t =? t0) && (Z.of_nat i =? p0) = false) by (rewrite (Z.eqb_sym t t0), (Z.eqb_sym _ p0); exact E).
+                 rewrite E'. apply (Hbk c0 cl0 t i Hc0).
+           ++ destruct (c0 =? c) eqn:E; [lia|]. cbn [andb]. apply (Hbk c cl t i Hg).
+      * unfold add_broker_offset in Hstep. rewrite Hc0 in Hstep. injection Hstep as <- _. split; [exact Hcl|].
+        intros c cl t i Hg. unfold broker_known. rewrite bk_last_snoc, last_broker_snoc. cbn [bk_event is_broker].
+        destruct (c0 =? c) eqn:E; [assert (c0 = c) by lia; congruence|]. cbn [andb]. apply (Hbk c cl t i Hg).
+    + (* DeleteTopic *)
+      destruct (get st c0) as [cl0|] eqn:Hc0.
+      * destruct (newest_of_dtopic st c0 cl0 t0 st' rep Hc0 Hstep) as (cl' & -> & Hn). split.
+        -- intros c. rewrite get_set_none_iff by congruence. apply Hcl.
+        -- intros c cl t i Hg. unfold broker_known. rewrite bk_last_snoc, last_broker_snoc. cbn [bk_event is_broker].
+           apply get_set_inv in Hg. destruct Hg as [[-> ->]|[Hne Hg]].
+           ++ rewrite Hn, Z.eqb_refl. cbn [andb]. rewrite (Z.eqb_sym t t0). destruct (t0 =? t); [reflexivity|apply (Hbk c0 cl0 t i Hc0)].
+           ++ destruct (c0 =? c) eqn:E; [lia|]. cbn [andb]. apply (Hbk c cl t i Hg).
+      * unfold delete_topic in Hstep. rewrite Hc0 in Hstep. injection Hstep as <- _. split; [exact Hcl|].
+        intros c cl t i Hg. unfold broker_known. rewrite bk_last_snoc, last_broker_snoc. cbn [bk_event is_broker].
+        destruct (c0 =? c) eqn:E; [assert (c0 = c) by lia; congruence|]. cbn [andb]. apply (Hbk c cl t i Hg).
+  - assert (Hev : forall c t p, bk_event c t p r = None /\ is_broker c t p r = None).
+    { intros c t p. destruct r; try discriminate; auto. }
+    destruct (step_same_broker cf now st r st' rep Etb Hstep) as [->|(c0 & cl0 & cl' & Hc0 & -> & Hbr)].
+    + split; [exact Hcl|]. intros c cl t i Hg. destruct (Hev c t (Z.of_nat i)) as [E1 E2].
+      destruct (Hkeep c t (Z.of_nat i) E1 E2) as [-> ->]. apply (Hbk c cl t i Hg).
+    + split; [intros c; rewrite get_set_none_iff by congruence; apply Hcl|].
+      intros c cl t i Hg. destruct (Hev c t (Z.of_nat i)) as [E1 E2].
+      destruct (Hkeep c t (Z.of_nat i) E1 E2) as [-> ->].
+      apply get_set_inv in Hg. destruct Hg as [[-> ->]|[Hne Hg]]; [|apply (Hbk c cl t i Hg)].
+      unfold newest_of. rewrite Hbr. apply (Hbk c0 cl0 t i Hc0).
+Qed.
+
+Theorem run_bk_inv cf cls h st reps : run cf (init_state cls) h = Some (st, reps) -> bk_inv cls h st.
+Proof.
+  revert st reps. induction h as [|[now r] h IH] using rev_ind; intros st reps Hrun.
+  - cbn in Hrun. injection Hrun as <- _. split; [apply get_init_state|].
+    intros c cl t i Hg. cbn.
+    assert (cl = mkCluster [] []).
+    { unfold init_state in Hg. induction cls as [|c0 cls IHc]; cbn in Hg; [discriminate|]. destruct (c0 =? c); [congruence|auto]. }
+    subst cl. reflexivity.
+  - rewrite run_snoc in Hrun. destruct (run cf (init_state cls) h) as [[st1 r1]|] eqn:Hrun1; [|discriminate].
+    destruct (step cf now st1 r) as [st2 rep|] eqn:Hstep; [|discriminate]. injection Hrun as <- _.
+    eapply bk_inv_step; [apply (IH st1 r1 eq_refl)|exact Hstep].
+Qed.
+
+Definition in_cls (c : Z) (cls : list Z) : bool := existsb (Z.eqb c) cls.
+Lemma in_cls_spec c cls : in_cls c cls = true <-> In c cls.
+Proof.
+  unfold in_cls. rewrite existsb_exists. split; [intros (x & Hx & E); apply Z.eqb_eq in E; subst; exact Hx|].
+  intros H. exists c. split; [exact H|apply Z.eqb_refl].
+Qed.
+
+(* "a broker offset is known for (c,t,p) in the state reached by h" (getBrokerOffset answers with a partition count
+   other than 0) iff c is a configured cluster, p >= 0, and h contains a SetBrokerOffset for exactly (c,t,p) that no
+   DeleteTopic c t follows; and then the offset it answers is last_broker h c t p.  No hypothesis on h besides that
+   storage ran it (a crashing request makes run None).  Announced counts do not matter: rings created only because a
+   larger count was announced hold no value, a smaller announced count is ignored by storage. *)
+Theorem broker_known_iff_history cf cls h st reps c t p :
+  run cf (init_state cls) h = Some (st, reps) ->
+  ((exists cl, get st c = Some cl /\ snd (get_broker_offset cl t p) <> 0) <->
+   (In c cls /\ 0 <= p /\ broker_known h c t p = true)) /\
+  (forall cl, get st c = Some cl -> snd (get_broker_offset cl t p) <> 0 ->
+              last_broker h c t p = Some (fst (get_broker_offset cl t p))).
+Proof.
+  intros Hrun. destruct (run_bk_inv cf cls h st reps Hrun) as [Hcl Hbk]. split; [split|].
+  - intros (cl & Hg & Hk). apply gbo_known in Hk. destruct Hk as [Hp Hn]. split; [apply Hcl; congruence|]. split; [exact Hp|].
+    rewrite (Hbk c cl t (Z.to_nat p) Hg), Z2Nat.id in Hn by exact Hp. destruct (broker_known h c t p); [reflexivity|congruence].
+  - intros (Hin & Hp & Hk). apply Hcl in Hin. destruct (get st c) as [cl|] eqn:Hg; [|congruence].
+    exists cl. split; [reflexivity|]. apply gbo_known. split; [exact Hp|].
+    rewrite (Hbk c cl t (Z.to_nat p) Hg), Z2Nat.id, Hk by exact Hp.
+    apply broker_known_spec in Hk. destruct Hk as (h1 & now & cnt & off & h2 & -> & _).
+    rewrite last_broker_app. cbn [last_broker is_broker]. rewrite !Z.eqb_refl. cbn [andb].
+    destruct (last_broker h2 c t p); discriminate.
+  - intros cl Hg Hk. pose proof Hk as Hk'. apply gbo_known in Hk'. destruct Hk' as [Hp Hn].
+    pose proof (Hbk c cl t (Z.to_nat p) Hg) as E. rewrite Z2Nat.id in E by exact Hp.
+    rewrite gbo_newest in *. assert (Hlt : (p <? 0) = false) by lia. rewrite Hlt in *.
+    destruct (newest_of cl t (Z.to_nat p)) as [b|]; [|congruence]. cbn [fst].
+    destruct (broker_known h c t p); [symmetry; exact E|discriminate].
+Qed.
+
+(* the four drop rules of addConsumerOffset read off the configuration, the request and the history alone *)
+Theorem reaches_ring_history cf cls h st reps now c g t p ts :
+  run cf (init_state cls) h = Some (st, reps) ->
+  reaches_ring cf now st c g t p ts =
+  if in_cls c cls && negb (too_old cf now ts) && cf_accept cf g && (0 <=? p) && broker_known h c t p
+  then last_broker h c t p else None.
+Proof.
+  intros Hrun. destruct (broker_known_iff_history cf cls h st reps c t p Hrun) as [Hiff Hval].
+  destruct (run_bk_inv cf cls h st reps Hrun) as [Hcl _]. unfold reaches_ring.
+  destruct (get st c) as [cl|] eqn:Hg.
+  - assert (Hin : in_cls c cls = true) by (apply in_cls_spec, Hcl; congruence). rewrite Hin. cbn [andb].
+    destruct (too_old cf now ts); [reflexivity|]. cbn [negb andb].
+    destruct (cf_accept cf g); [|reflexivity]. cbn [negb andb].
+    destruct (get_broker_offset cl t p) as [boff cnt] eqn:Eg. destruct (cnt =? 0) eqn:E0.
+    + destruct ((0 <=? p) && broker_known h c t p) eqn:Ec; [|reflexivity]. exfalso.
+      apply andb_true_iff in Ec. destruct Ec as [Ep Ek].
+      destruct (proj2 Hiff) as (cl' & Hg' & Hs); [split; [apply in_cls_spec; exact Hin|split; [lia|exact Ek]]|].
+      assert (cl' = cl) by congruence. subst cl'. rewrite Eg in Hs. cbn in Hs. lia.
+    + assert (Hs : snd (get_broker_offset cl t p) <> 0) by (rewrite Eg; cbn; lia).
+      destruct (proj1 Hiff (ex_intro _ cl (conj eq_refl Hs))) as (_ & Hp & Hk).
+      assert (Ep : (0 <=? p) = true) by lia. rewrite Ep, Hk. cbn [andb].
+      rewrite (Hval cl eq_refl Hs), Eg. reflexivity.
+  - assert (Hin : in_cls c cls = false).
+    { destruct (in_cls c cls) eqn:E; [|reflexivity]. apply in_cls_spec, Hcl in E. congruence. }
+    rewrite Hin. reflexivity.
+Qed.
+
+(* ================================================================================================ *)
+(* 7. lastCommit and the topic keys of a group, step by step (what the expiry purge and DeleteGroup read) *)
+(* ================================================================================================ *)
+
+Definition ginfo (st : state) (c g : Z) : option (Z * list Z) :=
+  match get st c with Some cl => ginfo_cl cl g | None => None end.
+
+Lemma group_expired_ginfo cf now st c g :
+  group_expired cf now st c g = match ginfo st c g with Some (L, _) => expired cf now L | None => false end.
+Proof.
+  unfold group_expired, ginfo, ginfo_cl. destruct (get st c) as [cl|]; [|reflexivity].
+  destruct (get (cl_consumer cl) g); reflexivity.
+Qed.
+
+Lemma ginfo_set_same st c cl' g : ginfo (set st c cl') c g = ginfo_cl cl' g.
+Proof. unfold ginfo. rewrite get_set_eq. reflexivity. Qed.
+Lemma ginfo_set_other st c0 cl' c g : c0 <> c -> ginfo (set st c0 cl') c g = ginfo st c g.
+Proof. intros H. unfold ginfo. rewrite get_set_neq by exact H. reflexivity. Qed.
+
+(* one request's effect on (lastCommit, topic keys) of group (c,g).
+   ceff: for a commit of this group, None = dropped before the ring, Some app = handed to the ring, app = "placed as the newest";
+   oeff: for an owner request of this group, None = ignored, Some kb = accepted, kb = "a broker offset is known for the partition" *)
+Definition ginfo_next (cf : config) (now c g : Z)
+           (ceff : Z -> Z -> Z -> Z -> Z -> option bool) (oeff : Z -> Z -> option bool)
+           (r : req) (G : option (Z * list Z)) : option (Z * list Z) :=
+  match r with
+  | SetConsumerOffset c' g' t p off order ts =>
+      if (c' =? c) && (g' =? g)
+      then match ceff t p off order ts with
+           | Some app => Some ((if app then ts else glast0 G), t :: drop_key t (gkeys0 G))
+           | None => G
+           end
+      else G
+  | SetConsumerOwner c' g' t p _ _ =>
+      if (c' =? c) && (g' =? g)
+      then match oeff t p with
+           | Some kb => Some (glast0 G, if kb then t :: drop_key t (gkeys0 G) else gkeys0 G)
+           | None => G
+           end
+      else G
+  | DeleteTopic c' t => if c' =? c then option_map (fun Lk => (fst Lk, drop_key t (snd Lk))) G else G
+  | DeleteGroup c' g' t' =>
+      if (c' =? c) && (g' =? g)
+      then match G with
+           | None => None
+           | Some (L, ks) => if t' =? 0 then None
+                             else match drop_key t' ks with [] => None | ks' => Some (L, ks') end
+           end
+      else G
+  | FetchConsumer c' g' =>
+      if (c' =? c) && (g' =? g)
+      then match G with Some (L, _) => if expired cf now L then None else G | None => None end
+      else G
+  | _ => G
+  end.
+
+Lemma delete_topic_ginfo st c cl t :
+  get st c = Some cl ->
+  exists cl', delete_topic st c t = Done (set st c cl') RNone /\
+    forall g, ginfo_cl cl' g = option_map (fun Lk => (fst Lk, drop_key t (snd Lk))) (ginfo_cl cl g).
+Proof.
+  intros Hc. unfold delete_topic. rewrite Hc. eexists. split; [reflexivity|].
+  intros g. unfold ginfo_cl. cbn [cl_consumer]. rewrite get_map_vals.
+  destruct (get (cl_consumer cl) g) as [grp|]; [|reflexivity]. cbn [option_map g_last g_topics fst snd].
+  rewrite keys_remove_eq. reflexivity.
+Qed.
+
+Lemma delete_group_ginfo st c cl g t :
+  get st c = Some cl ->
+  exists st', delete_group st c g t = Done st' RNone /\
+    forall g', ginfo st' c g' =
+      if g' =? g
+      then match ginfo_cl cl g with
+           | None => None
+           | Some (L, ks) => if t =? 0 then None else match drop_key t ks with [] => None | ks' => Some (L, ks') end
+           end
+      else ginfo_cl cl g'.
+Proof.
+  intros Hc. unfold delete_group. rewrite Hc.
+  assert (Hrm : forall g', ginfo (set st c (mkCluster (cl_broker cl) (remove (cl_consumer cl) g))) c g' =
+                           if g' =? g then None else ginfo_cl cl g').
+  { intros g'. rewrite ginfo_set_same. unfold ginfo_cl. cbn [cl_consumer]. destruct (g' =? g) eqn:E.
+    - apply Z.eqb_eq in E. subst g'. rewrite get_remove_eq. reflexivity.
+    - apply Z.eqb_neq in E. rewrite get_remove_neq by congruence. reflexivity. }
+  unfold ginfo_cl at 1. destruct (get (cl_consumer cl) g) as [grp|] eqn:Egr; cbn [option_map].
+  - destruct (t =? 0); [eexists; split; [reflexivity|exact Hrm]|].
+    rewrite <- keys_remove_eq. destruct (remove (g_topics grp) t) as [|kv rest] eqn:Erm.
+    + eexists; split; [reflexivity|]. cbn [keys map]. exact Hrm.
+    + rewrite <- Erm. eexists; split; [reflexivity|]. intros g'. rewrite ginfo_set_same. unfold ginfo_cl at 1. cbn [cl_consumer].
+      destruct (g' =? g) eqn:E.
+      * apply Z.eqb_eq in E. subst g'. rewrite get_set_eq. cbn [option_map g_last g_topics]. rewrite Erm. reflexivity.
+      * apply Z.eqb_neq in E. rewrite get_set_neq by congruence. reflexivity.
+  - exists st. split; [reflexivity|]. intros g'. unfold ginfo. rewrite Hc. destruct (g' =? g) eqn:E; [|reflexivity].
+    apply Z.eqb_eq in E. subst g'. unfold ginfo_cl. rewrite Egr. reflexivity.
+Qed.
+
+Lemma fetch_consumer_ginfo cf now st c g st' rep :
+  fetch_consumer cf now st c g = Done st' rep ->
+  forall g', ginfo st' c g' =
+             if g' =? g then match ginfo st c g with Some (L, _) => if expired cf now L then None else ginfo st c g | None => None end
+             else ginfo st c g'.
+Proof.
+  unfold fetch_consumer, ginfo. destruct (get st c) as [cl|] eqn:Hc.
+  2:{ intros H. injection H as <- _. rewrite Hc. intros g'. destruct (g' =? g); reflexivity. }
+  unfold ginfo_cl at 2 3. destruct (get (cl_consumer cl) g) as [grp|] eqn:Egr; cbn [option_map].
+  2:{ intros H. injection H as <- _. rewrite Hc. intros g'. destruct (g' =? g) eqn:E; [|reflexivity].
+      apply Z.eqb_eq in E. subst g'. unfold ginfo_cl. rewrite Egr. reflexivity. }
+  destruct (expired cf now (g_last grp)).
+  - intros H. injection H as <- _. rewrite get_set_eq. intros g'. unfold ginfo_cl. cbn [cl_consumer]. destruct (g' =? g) eqn:E.
+    + apply Z.eqb_eq in E. subst g'. rewrite get_remove_eq. reflexivity.
+    + apply Z.eqb_neq in E. rewrite get_remove_neq by congruence. reflexivity.
+  - destruct (fetch_topics_lags _ _); [|discriminate]. intros H. injection H as <- _. rewrite Hc. intros g'.
+    destruct (g' =? g) eqn:E; [|reflexivity]. apply Z.eqb_eq in E. subst g'. unfold ginfo_cl. rewrite Egr. reflexivity.
+Qed.
+
+(* the effects read on the state *)
+Definition ceff_st (cf : config) (now : Z) (st : state) (c g t p off order ts : Z) : option bool :=
+  match reaches_ring cf now st c g t p ts with
+  | Some boff => Some (snd (ring_step (cf_min_distance cf) (ring_of cf st c g t p) (mkCommit off order ts) (commit_lag boff off)))
+  | None => None
+  end.
+Definition oeff_st (cf : config) (st : state) (c g t p : Z) : option bool :=
+  match get st c with
+  | None => None
+  | Some cl => if cf_accept cf g then Some (negb (snd (get_broker_offset cl t p) =? 0)) else None
+  end.
+
+Definition req_cluster (r : req) : option Z :=
+  match r with
+  | SetBrokerOffset c _ _ _ _ | SetConsumerOffset c _ _ _ _ _ _ | SetConsumerOwner c _ _ _ _ _ | ClearConsumerOwners c _
+  | DeleteTopic c _ | DeleteGroup c _ _ | FetchConsumers c | FetchTopics c | FetchConsumer c _ | FetchTopic c _
+  | FetchConsumersForTopic c _ => Some c
+  | FetchClusters => None
+  end.
+
+(* a request only ever touches the cluster it names *)
+Lemma step_other_cluster cf now st r st' rep c :
+  step cf now st r = Done st' rep -> req_cluster r <> Some c -> get st' c = get st c.
+Proof.
+  assert (Hset : forall c0 cl', Some c0 <> Some c -> get (set st c0 cl') c = get st c).
+  { intros c0 cl' H. apply get_set_neq. congruence. }
+  destruct r as [c0 t0 p0 cnt off|c0 g0 t0 p0 off order ts|c0 g0 t0 p0 owner client|c0 g0|c0 t0|c0 g0 t0| |c0|c0|c0 g0|c0 t0|c0 t0];
+    cbn [step req_cluster]; intros Hstep Hne.
+  - unfold add_broker_offset in Hstep. destruct (get st c0) as [cl0|]; [|injection Hstep as <- _; reflexivity].
+    destruct (_ || _); [discriminate|]. injection Hstep as <- _. apply Hset; exact Hne.
+  - unfold add_consumer_offset in Hstep. destruct (get st c0) as [cl0|]; [|injection Hstep as <- _; reflexivity].
+    destruct (too_old cf now ts); [injection Hstep as <- _; reflexivity|].
+    destruct (negb (cf_accept cf g0)); [injection Hstep as <- _; reflexivity|].
+    destruct (get_broker_offset cl0 t0 p0) as [boff cnt].
+    destruct (cnt =? 0); [injection Hstep as <- _; reflexivity|].
+    destruct (ring_step _ _ _ _) as [w' app]. injection Hstep as <- _. apply Hset; exact Hne.
+  - unfold add_consumer_owner in Hstep. destruct (get st c0) as [cl0|]; [|injection Hstep as <- _; reflexivity].
+    destruct (negb (cf_accept cf g0)); [injection Hstep as <- _; reflexivity|].
+    destruct (get_broker_offset cl0 t0 p0) as [boff cnt].
+    destruct (cnt =? 0); injection Hstep as <- _; apply Hset; exact Hne.
+  - unfold clear_consumer_owners in Hstep. destruct (get st c0) as [cl0|]; [|injection Hstep as <- _; reflexivity].
+    destruct (negb (cf_accept cf g0)); [injection Hstep as <- _; reflexivity|].
+    destruct (get (cl_consumer cl0) g0); injection Hstep as <- _; [apply Hset; exact Hne|reflexivity].
+  - unfold delete_topic in Hstep. destruct (get st c0) as [cl0|]; injection Hstep as <- _; [apply Hset; exact Hne|reflexivity].
+  - unfold delete_group in Hstep. destruct (get st c0) as [cl0|]; [|injection Hstep as <- _; reflexivity].
+    destruct (get (cl_consumer cl0) g0) as [grp|]; [|injection Hstep as <- _; reflexivity].
+    destruct (t0 =? 0); [injection Hstep as <- _; apply Hset; exact Hne|].
+    destruct (remove (g_topics grp) t0); injection Hstep as <- _; apply Hset; exact Hne.
+  - injection Hstep as <- _. reflexivity.
+  - destruct (get st c0); injection Hstep as <- _; reflexivity.
+  - destruct (get st c0); injection Hstep as <- _; reflexivity.
+  - unfold fetch_consumer in Hstep. destruct (get st c0) as [cl0|]; [|injection Hstep as <- _; reflexivity].
+    destruct (get (cl_consumer cl0) g0) as [grp|]; [|injection Hstep as <- _; reflexivity].
+    destruct (expired cf now (g_last grp)); [injection Hstep as <- _; apply Hset; exact Hne|].
+    destruct (fetch_topics_lags _ _); [|discriminate]. injection Hstep as <- _. reflexivity.
+  - unfold fetch_topic in Hstep. destruct (get st c0) as [cl0|]; [destruct (get (cl_broker cl0) t0)|]; injection Hstep as <- _; reflexivity.
+  - unfold fetch_consumers_for_topic in Hstep. destruct (get st c0); injection Hstep as <- _; reflexivity.
+Qed.
+
+Theorem ginfo_step cf cls h st reps now r st' rep c g :
+  (1 <= cf_intervals cf)%nat -> wf_hist h -> wf_req r ->
+  run cf (init_state cls) h = Some (st, reps) ->
+  step cf now st r = Done st' rep ->
+  ginfo st' c g = ginfo_next cf now c g (ceff_st cf now st c g) (oeff_st cf st c g) r (ginfo st c g).
+Proof.
+  intros HN Hwf Hr Hrun Hstep. pose proof (run_reaches_hinv _ _ _ _ _ HN Hwf Hrun) as Hinv.
+  assert (Hother : req_cluster r <> Some c ->
+            ginfo st' c g = ginfo_next cf now c g (ceff_st cf now st c g) (oeff_st cf st c g) r (ginfo st c g)).
+  { intros Hne. unfold ginfo at 1. rewrite (step_other_cluster _ _ _ _ _ _ c Hstep Hne). fold (ginfo st c g).
+    destruct r; cbn [ginfo_next req_cluster] in *; try reflexivity;
+      (destruct (c0 =? c) eqn:E; [apply Z.eqb_eq in E; subst; congruence|reflexivity]). }
+  destruct r as [c0 t0 p0 cnt off|c0 g0 t0 p0 off order ts|c0 g0 t0 p0 owner client|c0 g0|c0 t0|c0 g0 t0| |c0|c0|c0 g0|c0 t0|c0 t0];
+    try (destruct (Z.eq_dec c0 c) as [->|Hnec]; [|apply Hother; cbn; congruence]);
+    cbn [step] in Hstep; cbn [ginfo_next]; rewrite ?Z.eqb_refl; cbn [andb].
+  - (* SetBrokerOffset *)
+    destruct Hr as [Hp Hoff]. destruct (get st c) as [cl0|] eqn:Hc0;
+      [|unfold add_broker_offset in Hstep; rewrite Hc0 in Hstep; injection Hstep as <- _; reflexivity].
+    destruct (abo_inv cf st c cl0 t0 p0 cnt off (last_broker h c)
+                (fun t' p' => if (t' =? t0) && (p' =? p0) then Some off else last_broker h c t' p')
+                (commit_ok h c) HN Hc0 (Hinv c cl0 Hc0) Hp Hoff) as (cl' & Hs & Hcons & _).
+    + rewrite !Z.eqb_refl. reflexivity.
+    + intros t' p' Hd. destruct (t' =? t0) eqn:E1; [|reflexivity]. destruct (p' =? p0) eqn:E2; [lia|reflexivity].
+    + rewrite Hs in Hstep. injection Hstep as <- _.
+      rewrite ginfo_set_same. unfold ginfo. rewrite Hc0. unfold ginfo_cl. rewrite Hcons. reflexivity.
+  - (* SetConsumerOffset *)
+    destruct (get st c) as [cl0|] eqn:Hc0.
+    + destruct (aco_inv cf now st c cl0 g0 t0 p0 off order ts (last_broker h c) (fun _ _ _ _ => True) Hc0) as
+        [[Hre Hs]|(cl' & boff & w1 & app & Hre & Hs & _ & _ & _ & _ & _ & Hrs & _ & _ & Hgi)].
+      * eapply cinv_impl; [reflexivity| |apply Hinv; exact Hc0]. intros; exact I.
+      * intros; exact I.
+      * rewrite Hs in Hstep. injection Hstep as <- _. destruct (g0 =? g) eqn:Eg; [|reflexivity].
+        apply Z.eqb_eq in Eg. subst g0. unfold ceff_st. rewrite Hre. reflexivity.
+      * rewrite Hs in Hstep. injection Hstep as <- _. rewrite ginfo_set_same, Hgi. rewrite (Z.eqb_sym g g0).
+        destruct (g0 =? g) eqn:Eg; [|unfold ginfo; rewrite Hc0; reflexivity].
+        apply Z.eqb_eq in Eg. subst g0. unfold ceff_st. rewrite Hre. unfold ring_of. rewrite Hc0, Hrs. cbn [snd].
+        unfold ginfo. rewrite Hc0. reflexivity.
+    + unfold add_consumer_offset in Hstep. rewrite Hc0 in Hstep. injection Hstep as <- _.
+      destruct (g0 =? g) eqn:Eg; [|reflexivity]. apply Z.eqb_eq in Eg. subst g0.
+      unfold ceff_st, reaches_ring. rewrite Hc0. reflexivity.
+  - (* SetConsumerOwner *)
+    destruct (get st c) as [cl0|] eqn:Hc0.
+    + destruct (aown_inv cf st c cl0 g0 t0 p0 owner client _ _ Hc0 (Hinv c cl0 Hc0))
+        as [[Hacc Hs]|(cl' & Hacc & Hs & _ & _ & _ & Hgi)]; rewrite Hs in Hstep; injection Hstep as <- _.
+      * destruct (g0 =? g) eqn:Eg; [|reflexivity]. apply Z.eqb_eq in Eg. subst g0.
+        unfold oeff_st. rewrite Hc0, Hacc. reflexivity.
+      * rewrite ginfo_set_same, Hgi. rewrite (Z.eqb_sym g g0).
+        destruct (g0 =? g) eqn:Eg; [|unfold ginfo; rewrite Hc0; reflexivity].
+        apply Z.eqb_eq in Eg. subst g0. unfold oeff_st. rewrite Hc0, Hacc. unfold ginfo. rewrite Hc0.
+        destruct (snd (get_broker_offset cl0 t0 p0) =? 0); reflexivity.
+    + unfold add_consumer_owner in Hstep. rewrite Hc0 in Hstep. injection Hstep as <- _.
+      destruct (g0 =? g) eqn:Eg; [|reflexivity]. unfold oeff_st. rewrite Hc0. reflexivity.
+  - (* ClearConsumerOwners *)
+    destruct (get st c) as [cl0|] eqn:Hc0;
+      [|unfold clear_consumer_owners in Hstep; rewrite Hc0 in Hstep; injection Hstep as <- _; reflexivity].
+    destruct (clear_inv cf st c cl0 g0 _ _ Hc0 (Hinv c cl0 Hc0)) as [Hs|(cl' & Hs & _ & _ & _ & Hgi)];
+      rewrite Hs in Hstep; injection Hstep as <- _; [reflexivity|].
+    rewrite ginfo_set_same, Hgi. unfold ginfo. rewrite Hc0. reflexivity.
+  - (* DeleteTopic *)
+    destruct (get st c) as [cl0|] eqn:Hc0.
+    + destruct (delete_topic_ginfo st c cl0 t0 Hc0) as (cl' & Hs & Hgi). rewrite Hs in Hstep. injection Hstep as <- _.
+      rewrite ginfo_set_same, Hgi. unfold ginfo. rewrite Hc0. reflexivity.
+    + unfold delete_topic in Hstep. rewrite Hc0 in Hstep. injection Hstep as <- _. unfold ginfo. rewrite Hc0. reflexivity.
+  - (* DeleteGroup *)
+    destruct (get st c) as [cl0|] eqn:Hc0.
+    + destruct (delete_group_ginfo st c cl0 g0 t0 Hc0) as (st2 & Hs & Hgi). rewrite Hs in Hstep. injection Hstep as <- _.
+      rewrite Hgi. rewrite (Z.eqb_sym g g0). unfold ginfo. rewrite Hc0.
+      destruct (g0 =? g) eqn:Eg; [|reflexivity]. apply Z.eqb_eq in Eg. subst g0. reflexivity.
+    + unfold delete_group in Hstep. rewrite Hc0 in Hstep. injection Hstep as <- _. unfold ginfo. rewrite Hc0.
+      destruct (g0 =? g); reflexivity.
+  - injection Hstep as <- _. reflexivity.
+  - destruct (get st c); injection Hstep as <- _; reflexivity.
+  - destruct (get st c); injection Hstep as <- _; reflexivity.
+  - (* FetchConsumer *)
+    rewrite (fetch_consumer_ginfo cf now st c g0 st' rep Hstep g). rewrite (Z.eqb_sym g g0).
+    destruct (g0 =? g) eqn:Eg; [|reflexivity]. apply Z.eqb_eq in Eg. subst g0. reflexivity.
+  - unfold fetch_topic in Hstep. destruct (get st c) as [cl0|]; [destruct (get (cl_broker cl0) t0)|];
+      injection Hstep as <- _; reflexivity.
+  - unfold fetch_consumers_for_topic in Hstep. destruct (get st c); injection Hstep as <- _; reflexivity.
 Qed.
